@@ -158,6 +158,17 @@ var controls = []control{
 	{"C19", "epilogue no longer last in the template", "Builder/GoObjectTemplate.go", "// Code Last part\n{{.CodeLast}}`", "// Code Last part\n{{.CodeLast}}\n// end of generated file\n`", "last-node-is-epilogue"},
 	{"C19", "parse error swallowed", "Builder/TsGenCode.go", "\tw, err := parser.ParseAndBuild(input)\n\tif err != nil {\n\t\treturn fmt.Errorf(\"parse error: %s\", err)\n\t}\n\tb := NewTsBuilder(w)", "\tw, err := parser.ParseAndBuild(input)\n\tif err != nil {\n\t\tfmt.Println(\"parse error:\", err)\n\t}\n\tb := NewTsBuilder(w)", "TsGenFromString/create-after-all-fallible-steps"},
 	{"C19", "benign: swap two builder steps", "Builder/GoTemplBuilder.go", "\tb.buildStateFunc()\n\tb.buildReduceFunc()\n", "\tb.buildReduceFunc()\n\tb.buildStateFunc()\n", ""},
+
+	// ---- benign probes that false-alarmed once (B3, B7–B12): behaviour-preserving rewrites a maintainer would make
+	{"C06", "benign: hoist the symbol count in GenTable", "LALR/Table.go", "\t\t\trow := make([]int, len(lalr.G.Symbols))", "\t\t\tnSyms := len(lalr.G.Symbols)\n\t\t\trow := make([]int, nSyms)", ""},
+	{"C01", "benign: hoist the symbol count in GenTable (C01)", "LALR/Table.go", "\t\t\trow := make([]int, len(lalr.G.Symbols))", "\t\t\tnSyms := len(lalr.G.Symbols)\n\t\t\trow := make([]int, nSyms)", ""},
+	{"C09", "benign: CheckIsExist as a range loop", "LR/LR0.go", "\t\t\tfor i := 0; i < len(ic_in.Items); i++ {", "\t\t\tfor i := range ic_in.Items {", ""},
+	{"C12", "benign: merged ifs in CalculateCanTerminate", "Grammar/grammar.go", "\t\t\tif every_CanTerm {\n\t\t\t\tif !(r.LeftPart.CanTerminate) {\n\t\t\t\t\tr.LeftPart.CanTerminate = true\n\t\t\t\t\tchange++\n\t\t\t\t}\n\t\t\t}", "\t\t\tif every_CanTerm && !r.LeftPart.CanTerminate {\n\t\t\t\tr.LeftPart.CanTerminate = true\n\t\t\t\tchange++\n\t\t\t}", ""},
+	{"C10", "benign: reorder two disjoint cases in rootState", "Parser/Lex.go", "\tcase r == '|':\n\t\tl.emit(RuleOR)\n\tcase r == ':':\n\t\tl.emit(RuleDefine)", "\tcase r == ':':\n\t\tl.emit(RuleDefine)\n\tcase r == '|':\n\t\tl.emit(RuleOR)", ""},
+	{"C13", "benign: reorder two disjoint cases in rootState (C13)", "Parser/Lex.go", "\tcase r == '|':\n\t\tl.emit(RuleOR)\n\tcase r == ':':\n\t\tl.emit(RuleDefine)", "\tcase r == ':':\n\t\tl.emit(RuleDefine)\n\tcase r == '|':\n\t\tl.emit(RuleOR)", ""},
+	{"C03", "benign: swap two independent locals in BuildTrans", "LALR/LALR.go", "\t\t\t\tq := iC.Index\n\t\t\t\tt := uint(it.RuleIndex)", "\t\t\t\tt := uint(it.RuleIndex)\n\t\t\t\tq := iC.Index", ""},
+	{"C03", "benign: Union breaks once the element is found", "LALR/Digraph.go", "\t\t\tif v == u {\n\t\t\t\tfound = true\n\t\t\t}", "\t\t\tif v == u {\n\t\t\t\tfound = true\n\t\t\t\tbreak\n\t\t\t}", ""},
+	{"C03", "benign: seqenceCanEpsilon returns directly", "LALR/Utils.go", "\tret := true\n\tfor _, sy := range slice {\n\t\tif !sy.IsEpsilonClosure {\n\t\t\tret = false\n\t\t\tbreak\n\t\t}\n\t}\n\treturn ret", "\tfor _, sy := range slice {\n\t\tif !sy.IsEpsilonClosure {\n\t\t\treturn false\n\t\t}\n\t}\n\treturn true", ""},
 }
 
 // controlsAll lists the controls whose Old text must be replaced everywhere in the file (consistent renames).
